@@ -31,20 +31,20 @@ def seq_spec(pid, level, rule, profile, oracle_factory, nontrivial_fn=None, worl
         return runner.result_to_dict(res, keep_trace=True)
 
     def replay_fn(doc):
-        res = engine.run_trace(doc["world"], doc["trace"], profile, oracle_factory)
+        res = engine.run_trace(doc["world"], doc["trace"], profile, oracle_factory, want=doc.get("expected", {}).get("oracle"))
         return [v.to_json() for v in res.violations]
 
     def minimise_fn(doc):
         want = doc["expected"]["oracle"]
 
         def test(sub):
-            res = engine.run_trace(doc["world"], sub, profile, oracle_factory)
+            res = engine.run_trace(doc["world"], sub, profile, oracle_factory, want=want)
             return any(v.oracle == want for v in res.violations)
 
         if not test(doc["trace"]):
             return doc
         small = runner.ddmin(list(doc["trace"]), test)
-        res = engine.run_trace(doc["world"], small, profile, oracle_factory)
+        res = engine.run_trace(doc["world"], small, profile, oracle_factory, want=want)
         v = [x for x in res.violations if x.oracle == want][0]
         out = dict(doc)
         out["trace"] = res.trace  # outcomes re-recorded on the minimised history
@@ -77,7 +77,7 @@ _REG = {}
 
 
 def _build():
-    from .oracles import c01, c02, c03, c07, c09, c10, c13
+    from .oracles import c01, c02, c03, c06, c07, c09, c10, c13, c15
 
     _REG["C02"] = seq_spec(
         "C02",
@@ -207,6 +207,46 @@ def _build():
         nontrivial_fn=c07.nontrivial,
         assumptions=["EOM drift-correction intervals are taken from observed slot times (their endpoints are implementation-defined); sign, rate (-detuning_off) and the 1e-3 factor are checked", "float comparisons modulo 2pi with 1e-9 tolerance"],
         expected_probes=["explicit_shift", "post_phase_shift", "pulse_after_shift", "barrier_delayed_pulse", "drift_corrected_pulse", "drift_corrected_enable", "drift_corrected_disable", "drift_corrected_modify"],
+    )
+
+    _REG["C06"] = seq_spec(
+        "C06",
+        "exploration",
+        "seeded SEQ-SIM runs; the observer samples the sequence at random instants DURING the run (every intermediate state: inside EOM mode, SLM mask pending, empty channels) and after restarts; each observation is compared sample-for-sample with RefRender (per channel arrays, EOM idle detuning, phases over pulses, extension padding, per-atom/per-basis view in both default and all-local form with DMM weights and XY SLM masking); non-trivial = the state has a retarget, an EOM block or a DMM and >=2 observations were compared; distinct = distinct concrete op traces",
+        A.make_profile(
+            w_observer=1.2,
+            observers={"obs_str": 0.3, "obs_sample": 6, "obs_duration": 0.3, "obs_estimate": 0.3, "obs_phase_ref": 0.2, "obs_props": 0.2, "obs_abstract": 0.2, "obs_legacy": 0.2, "obs_draw": 0.0},
+            w_fault=0.3,
+            fault_kinds={"bad": 2, "restart": 2, "cache": 1},
+            slm_p=0.45,
+            slm_p_xy=0.8,
+            use_xy_p=0.8,
+            nonfatal=("C06/atom-phase-default-view", "C06/atom-phase"),
+        ),
+        lambda: [c06.C06()],
+        nontrivial_fn=c06.nontrivial,
+        world_kw={"xy_p": 0.3},
+        assumptions=["waveform sample values come from the real code (C16's business)", "per-atom phase is only asserted at instants where exactly one pulse acts on the atom in that basis"],
+        expected_probes=["eom_idle_instants", "extended_observation", "extended_in_eom", "atom_view_checked", "xy_slm_mask_rendered", "xy_pulse_straddles_mask_end", "dmm_weighted"],
+    )
+
+    _REG["C15"] = seq_spec(
+        "C15",
+        "exploration",
+        "seeded SEQ-SIM runs with EOM actors on generated RydbergEOM configurations (limiting beam, controlled beams, multiple beam control, shift coefficients, custom buffer, fast and slow EOM): every interleaving of enable/modify/pulse/delay/disable with other channels active, near the maximum duration and across restarts; checks square pulses at the latest setpoint, idle off-detuning, the chosen off-detuning against an independently derived light-shift option set, and the buffers around blocks; non-trivial = >=1 block with non-zero off-detuning and >=2 EOM pulses; distinct = distinct concrete op traces",
+        A.make_profile(
+            chan_ops={"add": 6, "delay": 2, "target": 1.5, "phase_shift": 1, "align": 1, "enable_eom": 7},
+            eom_ops={"add_eom_pulse": 8, "delay": 2.5, "modify": 2.5, "disable": 2.5, "phase_shift": 0.7, "align": 0.7},
+            w_fault=0.3,
+            fault_kinds={"bad": 2, "restart": 2, "cache": 0.5},
+            w_observer=0.2,
+            measure_p=0.03,
+        ),
+        lambda: [c15.C15(), c09.Relabel(c07.C07(), "C15/drift-", only=("C07/pulse-phase", "C07/reference"))],
+        nontrivial_fn=c15.nontrivial,
+        world_kw={"bw_bias": 1.0},
+        assumptions=["Pulse.fall_time of the real code is a trusted input (both bandwidth readings accepted for 'ramped down')", "the emulator clause (drift-corrected populations) is decided by the EMU-SIM scenario part of this check"],
+        expected_probes=["eom_pulse", "block_with_nonzero_off_detuning", "off_detuning_choice", "eom_buffer_detuned", "eom_buffer_plain", "enable_waited_for_fall", "disable_custom_buffer", "disable_waited_for_fall"],
     )
 
 
